@@ -13,7 +13,7 @@ ID = 'C17'
 LEAN_MODULE = 'Proofs.C17'
 THEOREMS = ['Fsic.C17.' + n for n in [
     'trace_noninterference', 'trace_off_empty', 'traj_traced', 'cv_traced', 'trace_shape_solved',
-    'trace_shape_failed', 'trace_only_extends', 'trace_noninterference_solve']]
+    'trace_shape_failed', 'trace_only_extends', 'trace_noninterference_solve', 'trace_noninterference_solve_period']]
 RULE = ('tracer-extended scripted models over the C02/C06 case lattices (outcome sequences incl. non-finite, raising '
         'and warning passes and hooks, all errors/failures/catch_first_error/min/max_iter, both period spellings, '
         'offsets), trace in {True, list of names, single name, off}, entry points solve_t / solve_period / solve, '
